@@ -185,6 +185,9 @@ def replay(w):
             lints = [c for c in r['result'].get('lints', '[]').strip('[]').split(',') if c]
             codes = [c for c in r['result'].get('errors', '[]').strip('[]').split(',') if c]
             return bool(codes) or sum(1 for c in lints if c == '1800') != w['expect_l1800']
+        if w.get('expect_locations_ok'):
+            from . import witness_locations
+            return witness_locations.check(data.decode('utf-8', 'replace'), r) is not None
         if w.get('expect_render_clean'):
             from . import witness_render
             return witness_render.bad(r) is not None
